@@ -1671,6 +1671,9 @@ enum F64Rep {
     Infinity,
     #[serde(rename = "-∞")]
     NegInfinity,
+    /// Any other NaN, by its bits, so that its sign and payload are kept
+    #[serde(rename = "nan")]
+    NaNBits(u64),
     #[serde(untagged)]
     Num(f64),
 }
@@ -1684,8 +1687,10 @@ impl From<f64> for F64Rep {
                 Self::MapEmpty
             } else if n.to_bits() == TOMBSTONE_NAN.to_bits() {
                 Self::MapTombstone
-            } else {
+            } else if n.to_bits() == f64::NAN.to_bits() {
                 Self::NaN
+            } else {
+                Self::NaNBits(n.to_bits())
             }
         } else if n.is_infinite() {
             if n.is_sign_positive() {
@@ -1708,6 +1713,7 @@ impl From<F64Rep> for f64 {
             F64Rep::MapTombstone => TOMBSTONE_NAN,
             F64Rep::Infinity => f64::INFINITY,
             F64Rep::NegInfinity => f64::NEG_INFINITY,
+            F64Rep::NaNBits(bits) => f64::from_bits(bits),
             F64Rep::Num(n) => n,
         }
     }
